@@ -113,22 +113,23 @@ type Violation struct {
 
 // Result of an exploration.
 type Result struct {
-	Execs       int64
-	Points      int64 // choice points with >1 alternative visited
-	Steps       int64 // all visible operations executed
-	Outcomes    map[string]int64
-	SchedSigs   map[string]bool // distinct schedule signatures (bounded sample)
-	Violations  []Violation
-	Exhaustive  bool
-	Cap         string
-	MaxThreads  int
-	MapSites    map[int]int64 // site -> dynamic occurrences with >=2 keys
-	PreemptUsed int
-	DevUsed     int
-	FaultUsed   int
-	HarnessErr  string
-	Pruned      int64 // executions cut short because their state had been explored (HB state cache)
-	States      int64 // distinct happens-before states seen at scheduling points
+	Execs          int64
+	Points         int64 // choice points with >1 alternative visited
+	Steps          int64 // all visible operations executed
+	Outcomes       map[string]int64
+	SchedSigs      map[string]bool // distinct schedule signatures (bounded sample)
+	Violations     []Violation     // one representative per class
+	ViolationCount map[string]int64
+	Exhaustive     bool
+	Cap            string
+	MaxThreads     int
+	MapSites       map[int]int64 // site -> dynamic occurrences with >=2 keys
+	PreemptUsed    int
+	DevUsed        int
+	FaultUsed      int
+	HarnessErr     string
+	Pruned         int64 // executions cut short because their state had been explored (HB state cache)
+	States         int64 // distinct happens-before states seen at scheduling points
 }
 
 // ---------------------------------------------------------------------------------------------
@@ -622,8 +623,19 @@ func (e *explorer) one(prefix []int) *Exec {
 	if msg == "" && e.cfg.Check != nil {
 		msg = e.cfg.Check(x, obs)
 	}
-	if msg != "" && len(r.Violations) < 20 {
-		r.Violations = append(r.Violations, Violation{Msg: msg, Choices: append([]int{}, x.choices...), Trace: x.trace, Obs: obs})
+	if msg != "" {
+		// one representative per violation class (text before the first NUL, if any); exploration
+		// continues so that a frequent class cannot hide a rare one
+		key := msg
+		if i := strings.IndexByte(msg, 0); i >= 0 {
+			key = msg[:i]
+		} else if len(key) > 60 {
+			key = key[:60]
+		}
+		if r.ViolationCount[key] == 0 {
+			r.Violations = append(r.Violations, Violation{Msg: msg, Choices: append([]int{}, x.choices...), Trace: x.trace, Obs: obs})
+		}
+		r.ViolationCount[key]++
 	}
 	p, d, f := e.cost(x, len(x.choices))
 	if p > r.PreemptUsed {
@@ -663,9 +675,9 @@ func (e *explorer) explore(prefix []int, depth int) {
 		return
 	}
 	x := e.one(prefix)
-	if len(e.res.Violations) >= 20 {
+	if len(e.res.Violations) >= 40 {
 		e.stop = true
-		e.res.Cap = "20 violations"
+		e.res.Cap = "40 distinct violation classes"
 		return
 	}
 	for i := len(prefix); i < len(x.choices); i++ {
@@ -722,7 +734,7 @@ func Explore(cfg Config, body func(x *Exec) string) *Result {
 	if cfg.ShardDepth == 0 {
 		cfg.ShardDepth = 1
 	}
-	res := &Result{Outcomes: map[string]int64{}, SchedSigs: map[string]bool{}, MapSites: map[int]int64{}, Exhaustive: true}
+	res := &Result{ViolationCount: map[string]int64{}, Outcomes: map[string]int64{}, SchedSigs: map[string]bool{}, MapSites: map[int]int64{}, Exhaustive: true}
 	e := &explorer{cfg: &cfg, body: body, res: res}
 	if !cfg.NoStateCache {
 		e.cache = &stateCache{seen: map[[2]uint64][]cost{}}
